@@ -1,5 +1,5 @@
 # Shared plumbing for every check: paths, scratch dirs, evidence, verdict protocol.
-import json, os, sys, time, shutil, hashlib, subprocess, atexit
+import json, os, sys, time, shutil, hashlib, subprocess, atexit, threading
 
 VERIF = os.path.dirname(os.path.dirname(os.path.abspath(__file__)))
 REPO = os.environ.get("VERIF_REPO", "/repo")
@@ -13,17 +13,27 @@ if REPO not in sys.path:
   sys.path.insert(0, REPO)
 
 _work = None
+_work_lock = threading.Lock()
 
 
 def work_dir():
-  """per-process scratch under /verif/.work, removed at exit"""
+  """per-process scratch under /verif/.work, removed at exit.
+  Checks call this from several threads at once (TLC runs in a thread pool next to the trace harness), so the
+  directory is created before its name is published: a second caller must never see a path that does not exist yet.
+  ./check calls it once before any thread or worker process is started; after that the lock-free fast path is all
+  that runs (a lock held by another thread at fork time would otherwise be inherited locked by a worker)."""
   global _work
-  if _work is None:
-    _work = os.path.join(VERIF, ".work", "w%d_%d" % (os.getpid(), int(time.time() * 1000) % 100000))
-    os.makedirs(_work, exist_ok=True)
-    owner = os.getpid()
-    atexit.register(lambda: shutil.rmtree(_work, ignore_errors=True) if os.getpid() == owner else None)
-  return _work
+  w = _work
+  if w is not None:
+    return w
+  with _work_lock:
+    if _work is None:
+      owner = os.getpid()
+      d = os.path.join(VERIF, ".work", "w%d_%d" % (owner, int(time.time() * 1000) % 100000))
+      os.makedirs(d, exist_ok=True)
+      atexit.register(lambda: shutil.rmtree(d, ignore_errors=True) if os.getpid() == owner else None)
+      _work = d
+    return _work
 
 
 def seed():
@@ -65,17 +75,19 @@ class Run:
     self.violations = []   # Violation
     self.known_hits = {}   # key -> what
     self.notes = []
+    self._lock = threading.Lock()   # add() is called from the TLC thread pool and the harness thread
     self.findings = [f for f in load_findings() if f.get("property") == prop]
     shutil.rmtree(os.path.join(VERIF, "replays", prop), ignore_errors=True)
 
   def add(self, **kw):
-    for k, v in kw.items():
-      if isinstance(v, int) and not isinstance(v, bool) and isinstance(self.cov.get(k), int):
-        self.cov[k] += v
-      elif isinstance(v, list) and isinstance(self.cov.get(k), list):
-        self.cov[k].extend(v)
-      else:
-        self.cov[k] = v
+    with self._lock:
+      for k, v in kw.items():
+        if isinstance(v, int) and not isinstance(v, bool) and isinstance(self.cov.get(k), int):
+          self.cov[k] += v
+        elif isinstance(v, list) and isinstance(self.cov.get(k), list):
+          self.cov[k].extend(v)
+        else:
+          self.cov[k] = v
 
   def sample(self, s, cap=6):
     lst = self.cov.setdefault("samples", [])
